@@ -331,6 +331,9 @@ pub(crate) struct World {
     /// `PeerHandle` here (the harness watches `is_connected()` on it)
     keep_handles: bool,
     handles: Mutex<BTreeMap<usize, PeerHandle>>,
+    /// the router carries a middleware that REWRITES the query of the requests it forwards ("/v1/x" -> "/x"),
+    /// and the parked handlers are reached through it: they must observe cancellation all the same
+    pub rewrite: bool,
 }
 
 impl World {
@@ -345,7 +348,18 @@ impl World {
             plans,
             keep_handles: false,
             handles: Mutex::new(BTreeMap::new()),
+            rewrite: false,
         })
+    }
+    /// The same, with the query-rewriting middleware in front of the handlers.
+    pub(crate) fn new_rewriting(plans: Vec<Plan>) -> Arc<World> {
+        let mut w = World::new(plans);
+        Arc::get_mut(&mut w).expect("fresh").rewrite = true;
+        w
+    }
+    /// Path under which the harness requests the parked handler `route` in this scenario.
+    pub(crate) fn park_path(&self, route: &'static str) -> String {
+        if self.rewrite { format!("/v1{route}") } else { route.to_string() }
     }
     /// The same, and the first connect hook hands a clone of every `PeerHandle` to the harness.
     pub(crate) fn new_keeping_handles(plans: Vec<Plan>) -> Arc<World> {
@@ -451,9 +465,37 @@ impl World {
 
 /// The server under test with the full hook set. Registration order:
 /// C1, D1, registry(insert/remove), C2, H, D2.
+/// Forwards "/v1/<rest>" as "/<rest>" (a new request message with the rewritten query), anything else unchanged.
+struct StripV1;
+impl repe::server::Middleware for StripV1 {
+    fn handle(&self, req: &repe::Message, next: repe::server::Next<'_>) -> Result<repe::Message, repe::RepeError> {
+        match req.query.strip_prefix(b"/v1") {
+            Some(rest) if rest.first() == Some(&b'/') => {
+                let mut m = req.clone();
+                m.query = rest.to_vec();
+                m.header.query_length = m.query.len() as u64;
+                m.header.length = 48 + m.header.query_length + m.header.body_length;
+                next.run(&m)
+            }
+            _ => next.run(req),
+        }
+    }
+}
+
 pub(crate) fn build_server(w: &Arc<World>) -> WebSocketServer {
-    let router = Router::new()
-        .with_json_ctx("/probe", {
+    let mut router = Router::new();
+    if w.rewrite {
+        router = router.with_middleware(StripV1);
+    }
+    for pre in if w.rewrite { vec!["", "/v1"] } else { vec![""] } {
+        router = add_routes(router, w, pre);
+    }
+    build_server_with(w, router)
+}
+
+fn add_routes(router: Router, w: &Arc<World>, pre: &str) -> Router {
+    router
+        .with_json_ctx(&format!("{pre}/probe"), {
             let w = w.clone();
             move |ctx, v| {
                 let id = ctx.peer().map(|p| p.peer_id()).unwrap_or(PeerId::DETACHED);
@@ -464,7 +506,7 @@ pub(crate) fn build_server(w: &Arc<World>) -> WebSocketServer {
                 Ok(json!({"probe": true}))
             }
         })
-        .with_json_ctx("/park_inline", {
+        .with_json_ctx(&format!("{pre}/park_inline"), {
             let w = w.clone();
             move |ctx, _v| {
                 let id = ctx.peer().map(|p| p.peer_id()).unwrap_or(PeerId::DETACHED);
@@ -485,7 +527,7 @@ pub(crate) fn build_server(w: &Arc<World>) -> WebSocketServer {
                 Ok(json!({"parked": "inline"}))
             }
         })
-        .with_json_ctx_blocking("/park_off", {
+        .with_json_ctx_blocking(&format!("{pre}/park_off"), {
             let w = w.clone();
             move |ctx, _v| {
                 let id = ctx.peer().map(|p| p.peer_id()).unwrap_or(PeerId::DETACHED);
@@ -502,8 +544,8 @@ pub(crate) fn build_server(w: &Arc<World>) -> WebSocketServer {
                 Ok(json!({"parked": "off"}))
             }
         })
-        .with_json_ctx("/panic_inline", |_ctx, _v| -> Result<Value, (repe::ErrorCode, String)> { panic!("C15: inline handler panic") })
-        .with_json_ctx_blocking("/panic_off", {
+        .with_json_ctx(&format!("{pre}/panic_inline"), |_ctx, _v| -> Result<Value, (repe::ErrorCode, String)> { panic!("C15: inline handler panic") })
+        .with_json_ctx_blocking(&format!("{pre}/panic_off"), {
             let w = w.clone();
             move |ctx, _v| -> Result<Value, (repe::ErrorCode, String)> {
                 let id = ctx.peer().map(|p| p.peer_id()).unwrap_or(PeerId::DETACHED);
@@ -511,7 +553,7 @@ pub(crate) fn build_server(w: &Arc<World>) -> WebSocketServer {
                 panic!("C15: off-reader handler panic")
             }
         })
-        .with_json_ctx("/big", {
+        .with_json_ctx(&format!("{pre}/big"), {
             let w = w.clone();
             move |ctx, v| {
                 let id = ctx.peer().map(|p| p.peer_id()).unwrap_or(PeerId::DETACHED);
@@ -521,7 +563,10 @@ pub(crate) fn build_server(w: &Arc<World>) -> WebSocketServer {
                 let n = v.get("bytes").and_then(|n| n.as_u64()).unwrap_or(0) as usize;
                 Ok(Value::String("x".repeat(n)))
             }
-        });
+        })
+}
+
+fn build_server_with(w: &Arc<World>, router: Router) -> WebSocketServer {
     WebSocketServer::new(router)
         .on_error({
             let w = w.clone();
@@ -1191,12 +1236,17 @@ pub(crate) fn variant_from_json(v: &Value) -> Result<Variant, String> {
 }
 
 fn mem_sc(variant: Variant, conns: Vec<Cell>, shared_token: bool, reverse_end: bool) -> Scenario {
-    Scenario::Mem(mem::MemScenario { prefix: None, variant, conns, shared_token, reverse_end })
+    Scenario::Mem(mem::MemScenario { prefix: None, variant, conns, shared_token, reverse_end, rewrite: false })
+}
+
+/// the same with the query-rewriting middleware in front of the parked handlers
+fn mem_rewriting(variant: Variant, conns: Vec<Cell>, shared_token: bool, reverse_end: bool) -> Scenario {
+    Scenario::Mem(mem::MemScenario { prefix: None, variant, conns, shared_token, reverse_end, rewrite: true })
 }
 
 /// the same, adopted through `adopt_upgraded_partially_read`
 fn mem_partial(prefix: mem::Prefix, variant: Variant, conns: Vec<Cell>, reverse_end: bool) -> Scenario {
-    Scenario::Mem(mem::MemScenario { prefix: Some(prefix), variant, conns, shared_token: false, reverse_end })
+    Scenario::Mem(mem::MemScenario { prefix: Some(prefix), variant, conns, shared_token: false, reverse_end, rewrite: false })
 }
 
 fn enumerate(tier: Tier, skipped: &mut BTreeMap<String, u64>) -> Vec<Scenario> {
@@ -1320,6 +1370,27 @@ fn enumerate(tier: Tier, skipped: &mut BTreeMap<String, u64>) -> Vec<Scenario> {
     //     that those still form the tail of the sweep)
     for x in ext::enumerate(tier) {
         v.push(Scenario::Ext(x));
+    }
+    // (4d) a middleware that rewrites the query of what it forwards sits in front of the parked handlers: every
+    //     cause with a handler parked inline / off the reader, on every entry point; two connections (quick: a
+    //     covering selection of ordered pairs, thorough: every ordered pair of such cells), one shared token too
+    {
+        let parked: Vec<Cell> = cells(true, true).into_iter().filter(|c| matches!(c.phase, Phase::Inline | Phase::Off)).collect();
+        for &variant in &VARIANTS {
+            for c in &parked {
+                if skip_reason(c.cause, c.phase, variant.has_token(), variant.has_handshake()).is_none() {
+                    v.push(mem_rewriting(variant, vec![*c], false, false));
+                }
+            }
+        }
+        for (i, a) in parked.iter().enumerate() {
+            for (j, b) in parked.iter().enumerate() {
+                if tier == Tier::Quick && (i * 5 + 1) % parked.len() != j {
+                    continue;
+                }
+                v.push(mem_rewriting(Variant::CancelHandshake, vec![*a, *b], (i + j) % 2 == 0, (i + j) % 3 == 0));
+            }
+        }
     }
     // (5) the built-in accept loops over loopback TCP
     for t in tcp::enumerate(tier, skipped) {
